@@ -88,7 +88,7 @@ fcp_parser = Lark(
     enum: "enum" identifier "{" enum_field* "}"
     enum_field : identifier "=" value ","
 
-    impl: "impl" identifier "for" identifier "as"? identifier? "{" (extension_field | signal_block)+ "}"
+    impl: "impl" identifier "for" identifier _AS? identifier? "{" (extension_field | signal_block)+ "}"
     signal_block: "signal" identifier "{" extension_field+ "}" ","
     extension_field: identifier ":" value ","
 
@@ -105,6 +105,7 @@ fcp_parser = Lark(
     value : array | identifier | number | string
     array: "[" value ("," value)* "]"
 
+    _AS: /as(?![A-Za-z0-9_])/
     STR_TYPE: /str(?![A-Za-z0-9_])/
     UNSIGNED_TYPE: /u[0-9]{1,2}(?![A-Za-z0-9_])/
     SIGNED_TYPE: /i[0-9]{1,2}(?![A-Za-z0-9_])/
